@@ -29,12 +29,20 @@ const (
 	kUnixSec
 	kUnixMilli
 	kUnixNano
-	kPInt    // *int64
-	kNullStr // sql.NullString (a driver.Valuer / sql.Scanner struct)
-	kPTime   // *time.Time (tracked time fields)
+	kPInt     // *int64
+	kNullStr  // sql.NullString (a driver.Valuer / sql.Scanner struct)
+	kPTime    // *time.Time (tracked time fields)
+	kJSON     // struct value with serializer:json (text column holding its JSON)
+	kUnixtime // int64 with serializer:unixtime (datetime column)
 )
 
-var kindNames = []string{"int", "string", "bool", "float", "*string", "time", "unixsec", "unixmilli", "unixnano", "*int", "sql.NullString", "*time"}
+// jsonVal is the Go type of serializer:json fields.
+type jsonVal struct {
+	A string
+	B int64
+}
+
+var kindNames = []string{"int", "string", "bool", "float", "*string", "time", "unixsec", "unixmilli", "unixnano", "*int", "sql.NullString", "*time", "json-struct", "unixtime-int"}
 
 func (k kind) String() string { return kindNames[k] }
 
@@ -147,6 +155,8 @@ type field struct {
 	GoDefault cell
 	// Emb: the field lives in the embedded struct (field "Emb" of the model, tag embedded;embeddedPrefix:e_)
 	Emb bool
+	// Dup: an outer and an embedded field share this Go name (spelled by column name only)
+	Dup bool
 }
 
 // perms is the predictor's reading of the permission tag (gorm documentation,
@@ -213,6 +223,10 @@ func (f field) goType() reflect.Type {
 		return reflect.TypeOf(sql.NullString{})
 	case kPTime:
 		return reflect.TypeOf((*time.Time)(nil))
+	case kJSON:
+		return reflect.TypeOf(jsonVal{})
+	case kUnixtime:
+		return reflect.TypeOf(int64(0))
 	}
 	panic("harness: kind")
 }
@@ -221,13 +235,13 @@ func (f field) sqlType() string {
 	switch f.Kind {
 	case kInt, kUnixSec, kUnixMilli, kUnixNano, kPInt:
 		return "integer"
-	case kString, kPString, kNullStr:
+	case kString, kPString, kNullStr, kJSON:
 		return "text"
 	case kBool:
 		return "boolean"
 	case kFloat:
 		return "real"
-	case kTime, kPTime:
+	case kTime, kPTime, kUnixtime:
 		return "datetime"
 	}
 	panic("harness: kind")
@@ -246,6 +260,12 @@ func (f field) gormTag() string {
 	}
 	if f.AutoTag != "" {
 		parts = append(parts, f.AutoTag)
+	}
+	switch f.Kind {
+	case kJSON:
+		parts = append(parts, "serializer:json")
+	case kUnixtime:
+		parts = append(parts, "serializer:unixtime")
 	}
 	if f.DBDefault != "" {
 		parts = append(parts, "default:"+f.DBDefault)
@@ -296,10 +316,14 @@ type model struct {
 	NoRet  bool     // the handle's dialector registers the callbacks without RETURNING
 	// embedded struct: fields with Emb live in model field "Emb" (a struct, or a pointer to it when EmbPtr)
 	EmbPtr bool
-	embTyp reflect.Type
-	outer  []int // per field: index in the model struct (-1: embedded)
-	inner  []int // per field: index in the embedded struct (-1: not embedded)
-	embIdx int   // index of the "Emb" field in the model struct
+	// EmbPerm: permission tag on the embedding field itself. When it denies something, every embedded field
+	// carries a tag of its own that denies at least as much (the two possible readings - the outer tag is
+	// ignored / is intersected - then agree; which one holds is not documented)
+	EmbPerm string
+	embTyp  reflect.Type
+	outer   []int // per field: index in the model struct (-1: embedded)
+	inner   []int // per field: index in the embedded struct (-1: not embedded)
+	embIdx  int   // index of the "Emb" field in the model struct
 	// gorm.Config switches of the handle
 	SkipDefaultTx   bool
 	PrepareStmt     bool
@@ -366,9 +390,17 @@ func (m *model) build() {
 			t = reflect.PtrTo(t)
 		}
 		m.embIdx = len(sf)
-		sf = append(sf, reflect.StructField{Name: "Emb", Type: t, Tag: reflect.StructTag(`gorm:"embedded;embeddedPrefix:` + embPrefix + `"`)})
+		sf = append(sf, reflect.StructField{Name: "Emb", Type: t, Tag: reflect.StructTag(`gorm:"` + m.embTag() + `"`)})
 	}
 	m.Typ = reflect.StructOf(sf)
+}
+
+func (m *model) embTag() string {
+	t := "embedded;embeddedPrefix:" + embPrefix
+	if m.EmbPerm != "" {
+		t += ";" + m.EmbPerm
+	}
+	return t
 }
 
 // fieldOf returns the settable reflect.Value of field i inside the model struct v (allocating the
@@ -402,6 +434,9 @@ func (m *model) String() string {
 	}
 	if m.EmbPtr {
 		b.WriteString(" emb-pointer")
+	}
+	if m.EmbPerm != "" {
+		b.WriteString(" Emb`" + m.embTag() + "`")
 	}
 	if m.SkipDefaultTx {
 		b.WriteString(" SkipDefaultTransaction")
@@ -500,7 +535,9 @@ func (m *model) sentinel(rk rowKey, ci int) cell {
 			return nil
 		}
 		return n + 2
-	case kTime, kPTime:
+	case kJSON:
+		return fmt.Sprintf(`{"A":"r%dc%d","B":%d}`, id, ci, n)
+	case kTime, kPTime, kUnixtime:
 		return seedBase.Add(time.Duration(id)*time.Hour + time.Duration(ci)*time.Minute)
 	case kUnixSec:
 		return 1_600_000_000 + n
@@ -539,9 +576,15 @@ func zeroCell(f field) cell {
 		return nil
 	case kTime:
 		return time.Time{}
+	case kJSON:
+		return `{"A":"","B":0}` // the serialized zero value
+	case kUnixtime:
+		return time.Unix(0, 0).UTC()
 	}
 	panic("harness: kind")
 }
+
+func (f field) serialized() bool { return f.Kind == kJSON || f.Kind == kUnixtime }
 
 // table is a snapshot: rows keyed by primary key, cells in Fields order.
 type table struct {
